@@ -26,7 +26,8 @@ def kv(line):
 SHAPES = [(1000,), (64,), (30, 40), (8, 9, 10), (3, 4, 5, 6), (25,), (300,), (10, 10), (21,), (6, 6, 6)]
 CFGS = ["szMode=SZ_BEST_SPEED", "-", "szMode=SZ_BEST_SPEED;accelerate_pw_rel_compression=0", "losslessCompressor=GZIP_COMPRESSOR", "szMode=SZ_BEST_SPEED;quantization_intervals=256",
         "szMode=SZ_BEST_SPEED;max_quant_intervals=1024", "accelerate_pw_rel_compression=0;losslessCompressor=GZIP_COMPRESSOR", "losslessCompressor=GZIP_COMPRESSOR;gzipMode=Gzip_BEST_COMPRESSION",
-        "szMode=SZ_BEST_SPEED;withLinearRegression=NO", "szMode=SZ_BEST_SPEED;protectValueRange=YES"]
+        "szMode=SZ_BEST_SPEED;withLinearRegression=NO", "szMode=SZ_BEST_SPEED;protectValueRange=YES",
+        "szMode=SZ_BEST_SPEED;max_quant_intervals=131072", "max_quant_intervals=262144", "szMode=SZ_BEST_SPEED;max_quant_intervals=65536"]      # above 65536 intervals the accelerated kernels cannot be used
 RATIOS = (0.5, 0.1, 1e-2, 1e-3, 1e-4, 2e-5, 1.0001e-5, 1e-5, 9.99e-6, 9e-6, 1e-6, 1e-8)      # crossing the 1e-5 path switch
 
 
@@ -41,6 +42,8 @@ def gen_cases(chk):
         "pw 0 0,0,0,1e,28 %s szMode=SZ_BEST_SPEED;accelerate_pw_rel_compression=0 1 7ed4 30" % dbits(1e-8),           # ratio below float resolution
         "pw 1 0,0,0,a,a %s accelerate_pw_rel_compression=0;losslessCompressor=GZIP_COMPRESSOR 8 5c32 100" % dbits(0.5),  # zero on the threshold
         "pw 0 0,0,0,0,40 %s szMode=SZ_BEST_SPEED 4 1 3" % dbits(0.01),                                                   # all negative (first element's sign)
+        "pw 1 0,0,0,0,3e8 %s szMode=SZ_BEST_SPEED;max_quant_intervals=131072 1 77 3" % dbits(1e-3),                    # >65536 intervals: log kernel, stream flagged accelerated
+        "pw 1 0,0,0,0,3e8 %s max_quant_intervals=262144 10 77 30" % dbits(1e-3),
     ]
     # smooth, compressible, mixed-sign fields with a few magnitudes ~2^-100 and zeros, on the log-transform path of every rank
     for t in ((4096,), (64, 64), (8, 16, 32), (4, 8, 8, 16)):
